@@ -11,21 +11,25 @@ def _alarm(signum, frame):
 
 
 def watched(fn, seconds=12):
-    """Run fn() under a watchdog.  Returns ('ok', value) | ('exc', ExcName, msg) | ('hang',)."""
-    old = signal.signal(signal.SIGALRM, _alarm)
-    signal.alarm(seconds)
+    """Run fn() under a watchdog.  Returns ('ok', value) | ('exc', ExcName, msg) | ('hang',).
+    The budget is CPU time of this (single-threaded) worker process (ITIMER_PROF), so the verdict does not depend on
+    how busy the machine is; a wall-clock alarm of 20x the budget catches calls that block without computing."""
+    old = signal.signal(signal.SIGPROF, _alarm)
+    old2 = signal.signal(signal.SIGALRM, _alarm)
+    signal.setitimer(signal.ITIMER_PROF, seconds)
+    signal.alarm(int(seconds * 20))
     try:
         v = fn()
-        signal.alarm(0)
         return ("ok", v)
     except Hang:
         return ("hang",)
     except Exception as e:  # error paths are events too
-        signal.alarm(0)
         return ("exc", type(e).__name__, str(e)[:200])
     finally:
+        signal.setitimer(signal.ITIMER_PROF, 0)
         signal.alarm(0)
-        signal.signal(signal.SIGALRM, old)
+        signal.signal(signal.SIGPROF, old)
+        signal.signal(signal.SIGALRM, old2)
 
 
 def fx(v, scale=256):
